@@ -136,4 +136,7 @@ St == [store |-> store, mem |-> mem, passive |-> passive, conn |-> conn, ninflig
        uploads |-> [j \in 1..Len(inflight) |-> [ids |-> inflight[j].ids, reboot |-> inflight[j].reboot]], reconnects |-> reconnects, raised |-> raised, n |-> n, ver |-> ver,
        offered |-> offered, confirmed |-> confirmed, high |-> high, conn2 |-> conn, reboot |-> reboot, prs |-> [j \in 1..Len(inflight) |-> inflight[j].prs]]
 Edge == PrintT(ToJson([from |-> St, act |-> act', to |-> St']))
+(* Deeper histories without connection loss, restarts and upload errors: long enough for a key id to be consumed, re-issued to a key  *)
+(* of a later batch (ids continue after the highest STORED id) and consumed again.                                                    *)
+EdgeReuse == act'.name \in {"Connect", "Authed", "ServerAsksKeys", "UploadResult", "Consume"} /\ Edge
 ==============================================================================
